@@ -17,8 +17,13 @@ def gen_case(ctx, idx, small=False):
         up = rng.choice(["", "", "n%d" % i, "n%d/m" % i, "n%d/m/k" % i]) if i else rng.choice(["", "", "", "p/q"])
         d = os.path.join(base, up, "r%d" % i)
         os.makedirs(d)
-        fstree.build(d, fstree.gen_tree(rng, max_entries=6 if small else rng.choice([3, 10, 25, 50]), max_depth=6,
-                                        p_dir=rng.choice([0.3, 0.45, 0.6])))
+        nodes = fstree.gen_tree(rng, max_entries=6 if small else rng.choice([3, 10, 25, 50]), max_depth=6,
+                                p_dir=rng.choice([0.3, 0.45, 0.6]))
+        if idx % 4 == 1 and not any(n["name"] == "we\\ird" for n in nodes):
+            # a nested directory whose name contains a backslash, deep enough for any depth window to cut through it
+            nodes.append({"name": "we\\ird", "kind": "dir", "kids": [{"name": "f", "kind": "file", "size": 1}, {"name": "s\\ub", "kind": "dir", "kids": [
+                {"name": "deep.txt", "kind": "file", "size": 2}, {"name": "more", "kind": "dir", "kids": [{"name": "x", "kind": "file", "size": 0}]}]}]})
+        fstree.build(d, nodes)
         roots.append(d)
     # links to directories and files inside the searched trees (listed, never entered without `symlinks`)
     links = fstree.add_internal_links(rng, roots, rng.choice([0, 1, 2, 4]))
@@ -234,6 +239,6 @@ def run(ctx):
             st["hist"]["root_directory_window"] = 1
     ctx.coverage.update(
         evaluations=len(jobs) + len(sjobs), distinct_nontrivial=len(st["distinct"]), traces_validated_against_impl=st["agreed"],
-        rule="random trees (1-3 disjoint roots, up to 50 entries each, depth <= 6, files/dirs/symlinks incl. dangling/FIFOs/sockets/dot-files, adversarial names) x root spellings (relative, ./x, absolute, trailing slash, '.', default) x mindepth/maxdepth in 0..height+2 x bfs/dfs; the binary's exact row sequence is compared with model.Walk.walk_roots fed the observed tree (getdents order from os.scandir) and with an independent recursive listing (multiset + bfs/dfs order predicates). plus trees with one link (relative or absolute text, at any depth) to a directory outside the root: with `symlinks` the rows are the plain listing plus the linked directory's content below the link, bfs and dfs, four cwd/root spellings. plus the real root directory `/` as a search root with the window 2..2 restricted to /usr. non-trivial = some directory at depth >= 2 and a window that excludes at least one entry",
+        rule="random trees (1-3 disjoint roots, up to 50 entries each, depth <= 6, files/dirs/symlinks incl. dangling/FIFOs/sockets/dot-files, adversarial names incl. directory names that contain a backslash) x root spellings (relative, ./x, absolute, trailing slash, '.', default) x mindepth/maxdepth in 0..height+2 x bfs/dfs; the binary's exact row sequence is compared with model.Walk.walk_roots fed the observed tree (getdents order from os.scandir) and with an independent recursive listing (multiset + bfs/dfs order predicates). plus trees with one link (relative or absolute text, at any depth) to a directory outside the root: with `symlinks` the rows are the plain listing plus the linked directory's content below the link, bfs and dfs, four cwd/root spellings. plus the real root directory `/` as a search root with the window 2..2 restricted to /usr. non-trivial = some directory at depth >= 2 and a window that excludes at least one entry",
         samples=st["samples"], distribution=dict(st["hist"]))
     return ctx.finish(trusted=["canonicalize, read_dir and inode uniqueness are the kernel's; the observer (os.scandir, os.lstat, os.path.realpath) supplies them to the model"])
